@@ -36,8 +36,8 @@ func init() {
 				n = 2400
 			}
 			return fw.Meta{N: n, Level: "exploration", Chunk: 3, CaseTimeoutS: 300, MinNT: 30,
-				Rule:        "case index mod 3: 0 = SimpleDB with a driven schedule: >=40 rotation/flush/compaction cycles with a census (/proc/self/fd, /proc/self/maps filtered by the database directory; runtime goroutine dump filtered by go-sstables frames) at every quiescent point: descriptors <= 4, mappings <= live tables + 3; after Close: 0 descriptors, 0 mappings, no library goroutine (polled <= 5 s), then re-Open in the same process, Close, RemoveAll. 1 = SimpleDB with the live compactor where Close is called while a compaction is in flight (held open at a hook point), plus directories carrying a torn compaction marker or a cut-off last WAL record, and sessions with a burst of concurrent writers/readers (GC off, so that no finalizer hides a dropped reader); same after-Close census. 2 = table readers (all index loaders, complete and abandoned Scans, range scans; also the repository's four legacy-format fixture tables) and RecordIO readers/writers (incl. readers whose Open fails on a short or damaged file) in seeded create/use/Close sequences; census must return to the baseline. Non-trivial: >=10 censuses taken in the case; distinct by (kind, sequence hash) Driven cases end with three short sessions over planted crash residue (empty table folder / table folder with an empty metadata file / leftover compaction folder) with the garbage collector held off; nothing may stay open after their Close.",
-				MinObs:      map[string]int64{"sessions_over_planted_crash_residue": 10, "censuses": 1500, "db_cycles": 1200, "closes_during_inflight_compaction": 10, "abandoned_scans": 50, "failed_opens_closed": 50, "after_close_censuses": 100},
+				Rule:        "case index mod 3: 0 = SimpleDB with a driven schedule: >=40 rotation/flush/compaction cycles with a census (/proc/self/fd, /proc/self/maps filtered by the database directory; runtime goroutine dump filtered by go-sstables frames) at every quiescent point: descriptors <= 4, mappings <= live tables + 3; after Close: 0 descriptors, 0 mappings, no library goroutine (polled <= 5 s), then re-Open in the same process, Close, RemoveAll. 1 = SimpleDB with the live compactor where Close is called while a compaction is in flight (held open at a hook point), plus directories carrying a torn compaction marker or a cut-off last WAL record, and sessions with a burst of concurrent writers/readers (GC off, so that no finalizer hides a dropped reader); same after-Close census. 2 = table readers (all index loaders, complete and abandoned Scans, range scans; also the repository's four legacy-format fixture tables) and RecordIO readers/writers (incl. readers whose Open fails on a short or damaged file) in seeded create/use/Close sequences; census must return to the baseline. Non-trivial: >=10 censuses taken in the case; distinct by (kind, sequence hash) Driven cases end with three short sessions over planted crash residue (empty table folder / table folder with an empty metadata file / leftover compaction folder) with the garbage collector held off; nothing may stay open after their Close. Every second driven case adds two sessions with the asynchronous direct-I/O log on a real file system (garbage collector held off).",
+				MinObs:      map[string]int64{"sessions_with_the_direct_io_log_censused": 10, "sessions_over_planted_crash_residue": 10, "censuses": 1500, "db_cycles": 1200, "closes_during_inflight_compaction": 10, "abandoned_scans": 50, "failed_opens_closed": 50, "after_close_censuses": 100},
 				Assumptions: []string{"Linux /proc is the ground truth for descriptors and mappings", "a goroutine counts as 'library goroutine' when its stack has a go-sstables frame"},
 			}
 		},
